@@ -641,6 +641,14 @@ def prepare(run: Run, proof_modules: list[str], audit_prop: str | None = None, a
             run.audit_bad.append("translator %s could not read the current source: the table obligations of %s are not re-checked" % (t, run.prop))
         else:
             run.extra_cov.setdefault("translators_failed_for_other_properties", []).append(t)
+    if run.tier == "thorough" and b.proofs_ok and proof_modules:
+        # independent re-check of the compiled proof modules by the toolchain's leanchecker
+        t0 = time.time()
+        rc, out = _run(["lake", "env", "leanchecker"] + list(proof_modules), cwd=LEAN_DIR, timeout=3600)
+        run.extra_cov["leanchecker"] = {"modules": list(proof_modules), "exit": rc, "wall_s": round(time.time() - t0, 1),
+                                        "output_tail": out[-300:]}
+        if rc != 0:
+            run.audit_bad.append("leanchecker rejected the compiled proof modules: " + out[-300:])
     if audit_prop and b.proofs_ok:
         thms, raw, ok = audit(audit_prop)
         if not ok:
